@@ -42,6 +42,10 @@ type vfC11Case struct {
 	Base   []uint16     `json:"base"` // static scene (w*h), interior non-zero
 	Amp    uint16       `json:"amp"`  // blob amplitude
 	Frames []vfE2EFrame `json:"frames"`
+	// throttled mode: small bucket, 1 s refill, and a real pause before frame PauseBefore so that the bucket
+	// refills in the middle of a trigger
+	PauseBefore int `json:"pause_before,omitempty"`
+	PauseMs     int `json:"pause_ms,omitempty"`
 }
 
 func vfGenCam(t *rapid.T) vfCamDesc {
@@ -203,6 +207,19 @@ func vfGenC11(t *rapid.T) vfC11Case {
 		c.Base[p] = v
 	}
 	c.Amp = uint16(int(eff.DeltaThresh) + rapid.SampledFrom([]int{1, 50, 3000}).Draw(t, "amp"))
+	if simple && c.Cam.FPS <= 5 && rapid.IntRange(0, 11).Draw(t, "throttled_mode") == 0 {
+		// the bucket holds one minimum-length recording, refills within a second; continuous motion
+		c.Conf.Min, c.Conf.Prev, c.Conf.Max = 1, 1, 3
+		c.Conf.Throttle, c.Conf.BucketS, c.Conf.RefillS = true, 2, 1
+		fps := c.Cam.FPS
+		n := 2 + 3*fps*3
+		for i := 0; i < n; i++ {
+			c.Frames = append(c.Frames, vfE2EFrame{On: i >= 2 && i%2 == 0, FPA: 30000, FPAF: 29000})
+		}
+		c.PauseBefore = rapid.IntRange(2+fps+1, 2+3*fps-1).Draw(t, "pausebefore")
+		c.PauseMs = rapid.SampledFrom([]int{1200, 1600}).Draw(t, "pausems")
+		return c
+	}
 	total := rapid.IntRange(20, 90).Draw(t, "nframes")
 	// blob pattern: quiet lead-in, then motion episodes
 	on := false
@@ -375,7 +392,11 @@ func vfRunC11(c vfC11Case) *kit.Result {
 	}
 	for i := range c.Frames {
 		raw := vfC11Raw(c, i, eff.EdgePixels)
-		if err := conn.SendFrame(raw, nil); err != nil {
+		var atBarrier func()
+		if c.PauseMs > 0 && i == c.PauseBefore {
+			atBarrier = func() { time.Sleep(time.Duration(c.PauseMs) * time.Millisecond) }
+		}
+		if err := conn.SendFrame(raw, atBarrier); err != nil {
 			cerr := conn.Close()
 			r.Failf("frame %d could not be delivered (%v); handleConn ended with: %v", i, err, cerr)
 			return r
@@ -408,6 +429,9 @@ func vfRunC11(c vfC11Case) *kit.Result {
 		if rec.Closed {
 			want = append(want, rec)
 		}
+	}
+	if c.Conf.Throttle && c.Conf.BucketS < 600 {
+		return vfC11Throttled(c, r, files, sink.recs, eff)
 	}
 	if len(files) != len(want) {
 		r.Failf("%d finished recordings in the output directory %v, the stream and the settings (min %d max %d preview %d trigger-frames %d, motion %+v) yield %d", len(files), vfListDir(out), c.Conf.Min, c.Conf.Max, c.Conf.Prev, eff.TriggerFrames, eff, len(want))
@@ -531,3 +555,66 @@ func TestVF_C11(t *testing.T) {
 }
 
 var _ = math.Abs
+
+
+// vfC11Throttled: with a small bucket the files are pieces of the un-throttled twin's recordings. Each finished
+// file must be a contiguous run of frames of one twin recording, carry that recording's background frame first
+// and its threshold at trigger in the header, whichever way the file was (re)started.
+func vfC11Throttled(c vfC11Case, r *kit.Result, files []*vfFile, recs []*vfTwinRec, eff goconfig.ThermalMotion) *kit.Result {
+	restarted := false
+	for _, f := range files {
+		if len(f.Frames) < 2 || !f.Frames[0].Background {
+			r.Failf("throttled recording %s: %d frames, background frame first=%v (a file re-started after a throttle cut must carry the background frame too)", f.Name, len(f.Frames), len(f.Frames) > 0 && f.Frames[0].Background)
+			return r
+		}
+		gm := map[string]interface{}{}
+		if err := yaml2.Unmarshal([]byte(f.R.MotionConfig()), &gm); err != nil {
+			r.Failf("throttled recording %s: motion configuration is not YAML: %v", f.Name, err)
+			return r
+		}
+		matched := false
+		for _, rec := range recs {
+			// locate the file's frames as a contiguous run of rec.Frames
+			for off := 0; off+len(f.Frames)-1 <= len(rec.Frames); off++ {
+				ok := true
+				for i := 1; i < len(f.Frames); i++ {
+					w := rec.Frames[off+i-1]
+					g := f.Frames[i]
+					if g.TimeOnMs != w.TimeOnMs || fmt.Sprint(g.Pix) != fmt.Sprint(w.Pix) {
+						ok = false
+						break
+					}
+				}
+				if !ok {
+					continue
+				}
+				matched = true
+				if off > 0 {
+					restarted = true
+				}
+				if fmt.Sprint(f.Frames[0].Pix) != fmt.Sprint(rec.Bg) {
+					r.Failf("throttled recording %s (frames %d.. of a trigger) does not start with the background frame in force at the trigger", f.Name, off)
+					return r
+				}
+				if fmt.Sprint(gm["triggeredthresh"]) != fmt.Sprint(int(rec.Thr)) {
+					r.Failf("throttled recording %s (frames %d.. of a trigger) carries triggeredthresh %v, the threshold at the trigger was %d", f.Name, off, gm["triggeredthresh"], rec.Thr)
+					return r
+				}
+				break
+			}
+			if matched {
+				break
+			}
+		}
+		if !matched {
+			r.Failf("throttled recording %s is not a contiguous piece of any recording the un-throttled twin makes", f.Name)
+			return r
+		}
+	}
+	r.Class("throttled_mode")
+	if restarted {
+		r.Class("mid_trigger_restart_file")
+	}
+	r.NT = restarted
+	return r
+}
